@@ -14,7 +14,8 @@ C13 - Gibbs kernels draw from the exact full conditional.
 ``discrete``  liesel.model.goose.finite_discrete_gibbs_kernel: full product prior kind
               (FiniteDiscrete / Bernoulli / explicit outcomes) x outcome sets of size 2-4
               x prior-probability lattice x downstream likelihood (none / Normal mean /
-              mixture indicator) x lattice of the other current values; every ordered
+              mixture indicator / value of a weak variable with a distribution; 3 and 150+
+              observations) x lattice of the other current values; every ordered
               pair of states is run back to back on one kernel (history independence).
               The ``categorical`` seam records the logits and forces every outcome.
               Oracles: softmax(logits) == exact normalised joint over the outcomes
@@ -42,7 +43,7 @@ ASSUMPTIONS = [
     "the model's joint density is taken from the real model (Model.log_prob after assigning tau2) for the ratio test, and from an independent float64 reference (closed form / scipy) for the closed-form and discrete oracles",
     "jax.random.gamma and jax.random.categorical are trusted as samplers of Gamma(a,1) and of softmax(logits); what is checked is the parameters liesel hands to them and what it does with the answer",
     "lattices only: a in {0.01,1,2.5}, b in {0.01,1,3}, 5 penalties (dim 2-4, rank 0-3; thorough: a in {0.01,.5,1,2.5,10}, b in {0.01,.1,1,3}, 7 penalties up to dim 5), 6 coefficient vectors each, tau2 in {0.1,0.5,1,2,10,100}; outcome sets of size 2-4; 2-3 probability vectors per size; 3 likelihood settings",
-    "tolerances: closed-form parameters 1e-5 relative (float32 arithmetic); ratio test 0.005 absolute (observed float32 noise <= 5e-5) on differences of log-densities of magnitude <= ~1e3 (plausible bugs move it by >= 3.4); discrete probabilities 1e-5 absolute",
+    "tolerances: closed-form parameters 1e-5 relative (float32 arithmetic); ratio test 0.005 (dim <= 5; 0.02 for dim 20) + 5e-7 * |log joint| absolute (observed float32 noise <= 8e-5 / 1.9e-3 / 7e-3 at |log joint| 4e5) on differences of log-densities of magnitude <= ~1e3 (plausible bugs move it by >= 3.4); discrete probabilities 1e-5 + 2e-6 * max|logit| absolute",
     "jit == eager is compared on real PRNG keys used as input labels (VERIF_SEED selects the block of keys)",
 ]
 
@@ -53,6 +54,14 @@ B_VALUES = {"quick": [0.01, 1.0, 3.0], "thorough": [0.01, 0.1, 1.0, 3.0]}
 def penalty_names(tier):
     return list(ref.PENALTIES) + (list(ref.PENALTIES_EXTRA) if tier != "quick" else [])
 
+
+def scaled_penalty_units(tier):
+    """(penalty, a) pairs for the penalties whose matrix_rank differs from the number of
+    float32 eigenvalues above 1e-6 (dimension 20, so only a few a values in quick)."""
+    if tier == "quick":
+        return [("RW2_20_x1e-5", 1.0)]
+    return [(k, a) for k in ref.PENALTIES_SCALED for a in (0.01, 1.0, 10.0)]
+
 TAU2_LATTICE = [0.1, 0.5, 1.0, 2.0, 10.0, 100.0]
 GAMMA_ANSWERS = [1.0, 0.5, 2.0]
 RATIO_TOL = 0.005
@@ -62,7 +71,8 @@ PROB_TOL = 1e-5
 
 def bounds(tier):
     return {
-        "tau2": {"penalties": penalty_names(tier), "a": A_VALUES[tier], "b": B_VALUES[tier], "betas_per_penalty": 6, "tau2_lattice": TAU2_LATTICE,
+        "tau2": {"penalties": penalty_names(tier), "scaled_penalties_dim20": scaled_penalty_units(tier), "a": A_VALUES[tier], "b": B_VALUES[tier],
+                 "kernel": "built once per (penalty, a); b lattice, a second a and rank-1 reach it through the model state only", "betas_per_penalty": 6, "tau2_lattice": TAU2_LATTICE,
                  "gamma_answers": GAMMA_ANSWERS, "real_keys_jit_vs_eager": 2 if tier == "quick" else 6},
         "discrete": {"specs": len(discrete_specs(tier)), "state_pairs": "all ordered pairs of the per-spec state lattice", "forced_outcomes": "all",
                      "real_keys_jit_vs_eager": 6 if tier == "quick" else 16},
@@ -82,6 +92,7 @@ PROBS = {
 }
 SUPPORTS = {2: [[0.0, 1.0], [-1.0, 2.5]], 3: [[0.0, 1.0, 2.0], [-1.0, 0.5, 2.0]], 4: [[0.0, 1.0, 2.0, 3.0]]}
 MEAN_THETAS = [{"slope": 1.0, "icpt": 0.0, "sd": 1.0}, {"slope": -2.0, "icpt": 1.0, "sd": 0.5}]
+RESID_THETAS = [{"slope": 0.8, "icpt": 0.0, "sd": 1.3}, {"slope": -1.5, "icpt": 0.5, "sd": 0.6}]
 MIX_THETAS = [{"mus": [0.0, 1.0, 2.0, -1.0], "sds": [1.0, 1.0, 1.0, 1.0]}, {"mus": [1.0, 0.8, -3.0, 0.9], "sds": [0.3, 2.0, 1.0, 0.5]}]
 
 
@@ -103,15 +114,28 @@ def discrete_specs(tier):
     for lik in ("none", "mean", "mixture"):
         specs.append({"prior": "bernoulli", "support": [0, 1], "probs": [0.7, 0.02], "explicit": None, "lik": lik})
     specs.append({"prior": "bernoulli", "support": [0, 1], "probs": [0.7, 0.02], "explicit": [0, 1], "lik": "mean"})
+    # the variable enters through the value of a weak variable with a distribution
+    specs.append({"prior": "finite", "support": [0.0, 1.0, 2.0], "probs": PROBS[3], "explicit": None, "lik": "resid"})
+    specs.append({"prior": "finite", "support": [-1.0, 2.5], "probs": PROBS[2][:2], "explicit": None, "lik": "resid"})
+    specs.append({"prior": "bernoulli", "support": [0, 1], "probs": [0.7, 0.02], "explicit": None, "lik": "resid"})
     for s in specs:
         s["y"] = Y_OBS
-    return specs
+    # large-magnitude joint log-densities (150 observations, log joint between about -200
+    # and -5000: exp() of it underflows in float32)
+    big = [
+        {"prior": "finite", "support": [0.0, 1.0, 2.0], "probs": PROBS[3], "explicit": None, "lik": "mean", "ny": 150},
+        {"prior": "finite", "support": [-1.0, 2.5], "probs": PROBS[2][:2], "explicit": None, "lik": "resid", "ny": 150},
+        {"prior": "bernoulli", "support": [0, 1], "probs": [0.7, 0.02], "explicit": None, "lik": "mean", "ny": 150},
+    ]
+    if tier != "quick":
+        big.append({"prior": "finite", "support": [0.0, 1.0, 2.0, 3.0], "probs": PROBS[4], "explicit": None, "lik": "mixture", "ny": 400})
+    return specs + big
 
 
 def spec_states(spec):
     """Lattice of 'all other current values' for a spec: list of theta dicts."""
     out = []
-    liks = {"none": [{}], "mean": MEAN_THETAS, "mixture": MIX_THETAS}[spec["lik"]]
+    liks = {"none": [{}], "mean": MEAN_THETAS, "mixture": MIX_THETAS, "resid": RESID_THETAS}[spec["lik"]]
     for p in spec["probs"]:
         for th in liks:
             out.append({"probs": p, **th})
@@ -120,9 +144,11 @@ def spec_states(spec):
 
 def units(tier, seed):
     us = []
-    for name in penalty_names(tier):
-        for a in A_VALUES[tier]:
-            us.append({"kind": "tau2", "K": name, "a": a, "bs": B_VALUES[tier], "keys": [100 * seed + i for i in range(2 if tier == "quick" else 6)], "fresh": a == A_VALUES[tier][0] or tier != "quick"})
+    A = A_VALUES[tier]
+    pairs = [(name, a) for name in penalty_names(tier) for a in A] + scaled_penalty_units(tier)
+    for name, a in pairs:
+        a_other = A[(A.index(a) + 1) % len(A)] if a in A else A[0]
+        us.append({"kind": "tau2", "K": name, "a": a, "a_other": a_other, "bs": B_VALUES[tier], "keys": [100 * seed + i for i in range(2 if tier == "quick" else 6)], "fresh": a == A[0] or tier != "quick"})
     for s in discrete_specs(tier):
         us.append({"kind": "discrete", "spec": s, "keys": [100 * seed + i for i in range(6 if tier == "quick" else 16)]})
     return us
@@ -189,7 +215,7 @@ def build_tau2_model(Kname, a, b):
     K = ref.penalty(Kname)
     d = K.shape[0]
     X = np.vstack([np.eye(d), np.ones((1, d))])
-    y = np.array([0.3, -0.2, 1.0, 0.5, 0.1, -0.4][: d + 1])
+    y = np.array(([0.3, -0.2, 1.0, 0.5, 0.1, -0.4] + [((7 * i) % 10) / 10.0 - 0.4 for i in range(6, d + 1)])[: d + 1])
     drb = dr.DistRegBuilder().add_response(y, tfd.Normal).add_predictor("loc", tfb.Identity).add_predictor("scale", tfb.Exp)
     drb.add_np_smooth(X, K=K, a=a, b=b, predictor="loc", name="f")
     drb.add_p_smooth(np.ones((d + 1, 1)), m=0.0, s=10.0, predictor="scale", name="s0")
@@ -197,6 +223,8 @@ def build_tau2_model(Kname, a, b):
 
 
 def run_tau2(res: core.UnitResult, u: dict):
+    import gc
+
     import jax
     import jax.numpy as jnp
     import numpy as np
@@ -206,38 +234,57 @@ def run_tau2(res: core.UnitResult, u: dict):
     from mc.seams import ScriptedPRNG
 
     _quiet()
-    Kname, a = u["K"], u["a"]
+    Kname, a0 = u["K"], u["a"]
     K = ref.penalty(Kname)
-    if ref.rank(K) != ref.EXPECTED_RANK[Kname]:
+    rk = ref.rank(K)
+    if rk != ref.EXPECTED_RANK[Kname]:
         raise RuntimeError("reference rank differs from the hand-stated rank of the penalty")
     first: set[str] = set()
     spreads: list[float] = []
     epoch = _epoch()
+    b0 = u["bs"][0]
 
-    for b in u["bs"]:
-        model = build_tau2_model(Kname, a, b)
-        group = model.groups()["f"]
-        kernel = dr.tau2_gibbs_kernel(group)
-        kernel.set_model(gs.LieselInterface(model))
-        tname = group["tau2"].name
-        tnode = group["tau2"].value_node.name
-        jit_transition = jax.jit(lambda key, st: kernel.transition(key, {}, st, epoch).model_state[tnode].value)
-        if tuple(kernel.position_keys) != (tname,):
-            raise RuntimeError(f"unexpected position keys {kernel.position_keys}")
-        for bi, beta in enumerate(ref.betas(Kname)):
-            case = {"penalty": Kname, "K": K.tolist(), "a": a, "b": b, "beta": beta}
+    # ONE model and ONE kernel per unit, built with (a0, b0). Every other hyper-parameter
+    # setting reaches the kernel only through the model STATE it is handed (as in MCMC,
+    # where the kernel is built once): b over its lattice, a second value of a, and a
+    # changed rank hyper-parameter. A kernel that freezes anything at construction time
+    # is therefore exposed.
+    model = build_tau2_model(Kname, a0, b0)
+    group = model.groups()["f"]
+    kernel = dr.tau2_gibbs_kernel(group)
+    kernel.set_model(gs.LieselInterface(model))
+    tname = group["tau2"].name
+    tnode = group["tau2"].value_node.name
+    jit_transition = jax.jit(lambda key, st: kernel.transition(key, {}, st, epoch).model_state[tnode].value)
+    if tuple(kernel.position_keys) != (tname,):
+        raise RuntimeError(f"unexpected position keys {kernel.position_keys}")
+    all_betas = list(enumerate(ref.betas(Kname)))
+    settings = [(a0, b, None, all_betas, "build" if b == b0 else "state-b") for b in u["bs"]]
+    settings.append((u["a_other"], u["bs"][1], None, [all_betas[0], all_betas[4]], "state-a"))
+    if rk >= 1:
+        settings.append((a0, b0, rk - 1, [all_betas[0], all_betas[4]], "state-rank"))
+    rank_dtype = np.asarray(group["rank"].value).dtype
+
+    for si, (a, b, rank_state, betas, how) in enumerate(settings):
+        model.vars[group["a"].name].value = a
+        model.vars[group["b"].name].value = b
+        model.vars[group["rank"].name].value = np.asarray(rk if rank_state is None else rank_state, dtype=rank_dtype)
+        for bi, beta in betas:
+            case = {"penalty": Kname, "K": K.tolist() if K.shape[0] <= 5 else f"{Kname} (dim {K.shape[0]})", "a": a, "b": b, "beta": beta,
+                    "rank_in_state": rk if rank_state is None else rank_state, "kernel_built_with": {"a": a0, "b": b0, "rank": rk}, "setting_reached_via": how}
 
             def bad(sig, msg, extra=None):
                 if sig in first:
                     return
                 first.add(sig)
-                res.violation("tau2", sig, {**case, **(extra or {})}, msg + f" [penalty={Kname} (rank {ref.rank(K)}), a={a}, b={b}, beta={beta}]")
+                res.violation("tau2", sig, {**case, **(extra or {})},
+                              msg + f" [penalty={Kname} (rank {rk}), a={a}, b={b}, rank in state={case['rank_in_state']}, beta={beta}; kernel built once with a={a0}, b={b0}; setting via {how}]")
 
             model.vars[group["beta"].name].value = jnp.asarray(beta, dtype=jnp.float32)
             model.vars[tname].value = 1.5
             state = model.state
             before = snapshot(state)
-            a_ref, b_ref = ref.tau2_conditional(K, a, b, beta)
+            a_ref, b_ref = ref.tau2_conditional(K, a, b, beta, rank_state)
 
             obs = {}
             raised = None
@@ -269,10 +316,11 @@ def run_tau2(res: core.UnitResult, u: dict):
                 if abs(obs[g][1] * g - b_g) > 1e-6 * abs(b_g) or obs[g][0] != a_g:
                     bad("draw-not-scale-over-gamma", f"gamma answers 1 and {g} give draws {b_g} and {obs[g][1]}; expected draw = scale / gamma", {"draws": {str(k): v[1] for k, v in obs.items()}})
             # (i) closed form
+            tag = "" if how == "build" else "-" + how
             if abs(a_g - a_ref) > PARAM_RTOL * (1 + abs(a_ref)):
-                bad("shape-not-a-plus-half-rank", f"gamma shape parameter {a_g}, full conditional has a + rank/2 = {a_ref}", {"a_gibbs": a_g})
+                bad("shape-not-a-plus-half-rank" + tag, f"gamma shape parameter {a_g}, full conditional has a + rank/2 = {a_ref}", {"a_gibbs": a_g})
             if abs(b_g - b_ref) > PARAM_RTOL * (1 + abs(b_ref)):
-                bad("scale-not-b-plus-half-quadform", f"inverse-gamma scale {b_g}, full conditional has b + beta'K beta/2 = {b_ref}", {"b_gibbs": b_g})
+                bad("scale-not-b-plus-half-quadform" + tag, f"inverse-gamma scale {b_g}, full conditional has b + beta'K beta/2 = {b_ref}", {"b_gibbs": b_g})
             # (iv) coherent returned state
             st1 = out1.model_state
             model.vars[tname].value = b_g
@@ -283,9 +331,9 @@ def run_tau2(res: core.UnitResult, u: dict):
             if np.asarray(st1[group["beta"].value_node.name].value).tolist() != [float(np.float32(v)) for v in beta]:
                 bad("returned-state-other-values-changed", "beta changed in the returned state")
             # (ii) ratio test against the model joint
+            lps = []
             if a_g > 0 and b_g > 0:
                 diffs = []
-                lps = []
                 for t in TAU2_LATTICE:
                     model.vars[tname].value = t
                     lp = float(model.log_prob)
@@ -294,21 +342,27 @@ def run_tau2(res: core.UnitResult, u: dict):
                 res.transitions += len(TAU2_LATTICE)
                 spread = max(diffs) - min(diffs)
                 spreads.append(spread)
-                if not np.isfinite(spread) or spread > RATIO_TOL:
+                # float32 noise of the model joint grows with its magnitude and with the
+                # number of eigenvalue terms: observed <= 8e-5 (dim <= 5), 1.9e-3 (dim 20),
+                # 7e-3 at |log joint| ~ 4e5; a wrong power of tau2 moves the spread by >= 3.45
+                scale = max(max(abs(v) for v in lps), max(abs(l - d_) for l, d_ in zip(lps, diffs)))
+                ratio_tol = (RATIO_TOL if K.shape[0] <= 5 else 4 * RATIO_TOL) + 5e-7 * scale
+                if not np.isfinite(spread) or spread > ratio_tol:
                     bad("not-proportional-to-model-joint",
                         f"log joint(tau2) - log IG(tau2; {a_g}, {b_g}) varies by {spread:.4g} over tau2 in {TAU2_LATTICE}: the drawn law is not the model's full conditional",
                         {"a_gibbs": a_g, "b_gibbs": b_g, "log_joint": lps, "diffs": diffs})
             else:
                 bad("invalid-inverse-gamma-parameters", f"kernel uses IG({a_g}, {b_g})")
-            # fresh-model cross-check of the assignment path (harness sanity)
-            if u["fresh"] and bi == 4:
+            # fresh-model cross-check of the assignment path (harness sanity): a model
+            # BUILT with the setting has the same joint as the one that was assigned to
+            if u["fresh"] and bi == 4 and si == 1 and lps:
                 m2 = build_tau2_model(Kname, a, b)
                 m2.vars[group["beta"].name].value = jnp.asarray(beta, dtype=jnp.float32)
                 m2.vars[tname].value = TAU2_LATTICE[-1]
                 if abs(float(m2.log_prob) - lps[-1]) > 1e-4 * (1 + abs(lps[-1])):
                     raise RuntimeError("model joint through assignment differs from a freshly built model")
             # (v) jit == eager on real keys
-            if bi in (0, 4):
+            if bi in (0, 4) and si in (0, 1):
                 for kk in u["keys"]:
                     key = jax.random.PRNGKey(kk)
                     try:
@@ -327,16 +381,14 @@ def run_tau2(res: core.UnitResult, u: dict):
             res.states += 1
             res.executions += len(GAMMA_ANSWERS)
             qf = b_ref - b
-            res.outcome("tau2", Kname, "rank", ref.rank(K), "quad", "zero" if qf == 0 else "small" if qf < 2 else "large")
-            res.note([Kname, a, b, beta, round(a_g, 5), round(b_g, 4)])
+            res.outcome("tau2", Kname, "rank", rk, how, "quad", "zero" if qf == 0 else "small" if qf < 2 else "large")
+            res.note([Kname, a, b, how, beta[:5], round(a_g, 5), round(b_g, 4)])
             res.sample({"kind": "tau2", **case, "a_gibbs": a_g, "b_gibbs": b_g, "reference": [a_ref, b_ref]}, limit=1)
-        # jitted transitions / traced closures accumulate in jax's caches (workers are reused)
-        import gc
-
-        jax.clear_caches()
-        gc.collect()
+    # jitted transitions / traced closures accumulate in jax's caches (workers are reused)
+    jax.clear_caches()
+    gc.collect()
     res.note(["max ratio spread", round(max(spreads), 3) if spreads else None])
-    res.sample({"kind": "tau2-ratio-test", "penalty": Kname, "a": a, "max_spread_of_log_ratio": max(spreads) if spreads else None, "tolerance": RATIO_TOL}, limit=2)
+    res.sample({"kind": "tau2-ratio-test", "penalty": Kname, "a": a0, "max_spread_of_log_ratio": max(spreads) if spreads else None, "tolerance": RATIO_TOL}, limit=2)
 
 
 # ---------------------------------------------------------------------------------
@@ -365,14 +417,23 @@ def build_discrete_model(spec, theta):
         icpt = lsl.Var(jnp.asarray(theta["icpt"], jnp.float32), name="icpt")
         sd = lsl.Var(jnp.asarray(theta["sd"], jnp.float32), name="sd")
         loc = lsl.Var(lsl.Calc(lambda z, s, i: i + s * z, z, slope, icpt), name="loc")
-        y = lsl.obs(jnp.asarray(spec["y"], jnp.float32), lsl.Dist(tfd.Normal, loc=loc, scale=sd), name="y")
+        y = lsl.obs(jnp.asarray(ref.y_of(spec), jnp.float32), lsl.Dist(tfd.Normal, loc=loc, scale=sd), name="y")
         gb.add(y)
+    elif spec["lik"] == "resid":
+        # z enters the density through the VALUE of a weak variable that has a
+        # distribution: r = y - slope * z, r ~ N(icpt, sd)
+        slope = lsl.Var(jnp.asarray(theta["slope"], jnp.float32), name="slope")
+        icpt = lsl.Var(jnp.asarray(theta["icpt"], jnp.float32), name="icpt")
+        sd = lsl.Var(jnp.asarray(theta["sd"], jnp.float32), name="sd")
+        ydata = lsl.obs(jnp.asarray(ref.y_of(spec), jnp.float32), name="y")
+        r = lsl.Var(lsl.Calc(lambda y, s, z: y - s * z, ydata, slope, z), lsl.Dist(tfd.Normal, loc=icpt, scale=sd), name="r")
+        gb.add(r)
     elif spec["lik"] == "mixture":
         mus = lsl.Var(jnp.asarray(theta["mus"], jnp.float32), name="mus")
         sds = lsl.Var(jnp.asarray(theta["sds"], jnp.float32), name="sds")
         loc = lsl.Var(lsl.Calc(lambda z, m: m[jnp.asarray(z, jnp.int32)], z, mus), name="loc")
         sc = lsl.Var(lsl.Calc(lambda z, s: s[jnp.asarray(z, jnp.int32)], z, sds), name="scale")
-        y = lsl.obs(jnp.asarray(spec["y"], jnp.float32), lsl.Dist(tfd.Normal, loc=loc, scale=sc), name="y")
+        y = lsl.obs(jnp.asarray(ref.y_of(spec), jnp.float32), lsl.Dist(tfd.Normal, loc=loc, scale=sc), name="y")
         gb.add(y)
     return gb.build_model()
 
@@ -443,7 +504,11 @@ def run_discrete(res: core.UnitResult, u: dict):
             bad("logits-shape", f"categorical logits have shape {logits.shape} for {n_out} outcomes")
             return None
         got = ref.softmax(logits)
-        if not np.all(np.isfinite(got)) or np.max(np.abs(got - want)) > PROB_TOL:
+        # float32 logits of magnitude m carry an absolute error of about 1e-7 * m (times a
+        # small factor for the summation over the observations)
+        fin = logits[np.isfinite(logits)]
+        prob_tol = PROB_TOL + 2e-6 * (float(np.max(np.abs(fin))) if fin.size else 0.0)
+        if not np.all(np.isfinite(got)) or np.max(np.abs(got - want)) > prob_tol:
             bad("probabilities-not-full-conditional", f"draw probabilities {np.round(got, 6).tolist()} but the model's full conditional over outcomes {outcomes} is {np.round(want, 6).tolist()}", {"logits": logits.tolist(), "reference": want.tolist()})
         if snapshot(st) != before:
             bad("input-state-modified", "the model state passed to the transition was modified")
@@ -456,7 +521,7 @@ def run_discrete(res: core.UnitResult, u: dict):
             lp = float(new["_model_log_prob"].value)
             if np.isfinite(lp_ref) and (abs(lp - lp_ref) > 2e-4 * (1 + abs(lp_ref)) or any(bool(ns.outdated) for ns in new.values())):
                 bad("returned-state-incoherent", f"returned state has log_prob {lp}, the model joint at z={outcomes[j]} is {lp_ref}")
-        for k in ("probs", "slope", "icpt", "sd", "mus", "sds"):
+        for k in ("probs", "slope", "icpt", "sd", "mus", "sds", "y"):
             nk = k + "_value"
             if nk in new and np.asarray(new[nk].value).tolist() != np.asarray(st[nk].value).tolist():
                 bad("returned-state-other-values-changed", f"{k} changed in the returned state")
